@@ -18,9 +18,21 @@ import shutil
 import tempfile
 
 from harness import core
-from harness.adapters import tree as T
-from harness.adapters import vary as V
-from harness.props import _tree_common as G
+
+# an import failure of the modelled modules is a broken obligation, not an infrastructure error (LESSONS 7)
+try:
+    from harness.adapters import tree as T
+    from harness.adapters import vary as V
+    from harness.props import _tree_common as G
+    IMPORT_ERROR = None
+except Exception:  # noqa: BLE001
+    import traceback as _tb
+    T = V = G = None
+    IMPORT_ERROR = _tb.format_exc()
+
+
+class BaseRejected(Exception):
+    """the real intake refuses a generated (valid) base: reported once as a broken obligation"""
 
 MANIFEST_ENTRY = {
     "text": "Lean theorems over an executable model of the parameter holders and the variator (update_nested_dictionary / _merge_variation, alter_parameter at the three holder kinds, unpack_parameter_variations, vary_parameter_values): upd_varied / upd_frame_leaf_and_node (a nested update writes exactly the listed leaf paths), alter_is_nested_update, alter_frame_other, unpack_slice / unpack_direct (set i receives exactly the i-th listed value of every described leaf), vw_sets / vw_frame / vw_varied and vw_described (description -> value for the virtual world: every described leaf path holds vals[i] in set i, every untouched leaf its base value; n sets, settings unchanged except the output folder out/i, programs and outputs unchanged), program_copy / program_in_set / names_present_programs (programs level: the copy P_i is P with the name changed, untouched leaves kept, described leaves at the listed value), method_copy (methods level: other methods kept, the varied method is the nested update of the original stored under m_i, labels updated), baseline_unchanged_*, names_present_no_clash, names_distinct, out_folder, out_folders_distinct; C19_counterexample_names proves the full-strength name clause false (recorded finding F19a; the relatives F19b/F19c are recorded too). base_not_modified is a statement about aliasing: it is discharged on every run by the deep-equality oracle on the real objects (base dictionaries, base holder, description before/after) plus an identity walk asserting that no mutable object is shared between the base holder and any produced set, as DESIGN 5.19 plans. The model is tied on every run to the real classes on base parameters built by the real intake from the repo's default files, with generated sensitivity descriptions at all three levels (a share through get_sensitivity_info, one case per level through SensitivitySimulationManager), and the property's clauses are evaluated directly on the implementation's sets.",
@@ -58,6 +70,46 @@ def check_constants(ctx):
         ctx.broke("table:sensitivity-constants", f"{got} != {want}")
     else:
         ctx.discharged.append("table:sensitivity-constants")
+
+
+EXPECTED_STATE = [
+    "constants/sensitivity_analysis_constants.py:SensitivityAnalysisMapping:SENS_PARAM_MAPPING:dict",
+    "constants/sensitivity_analysis_constants.py:SensitivityVariationsMapping:FIXED_COLUMN_NAMES:list",
+    "constants/sensitivity_analysis_constants.py:SensitivityVariationsMapping:FLEXIBLE_COLUMNS_NAMES:list",
+    "constants/sensitivity_analysis_constants.py:TrueEstimatedEmisionsSens:COLUMNS:list",
+    "constants/sensitivity_analysis_constants.py:TrueEstimatedEmisionsSens:DATA_SOURCE_MAPPING:dict",
+    "constants/sensitivity_analysis_constants.py:ValidParametersForSensitivityAnalysis:METHODS:list",
+    "constants/sensitivity_analysis_constants.py:ValidParametersForSensitivityAnalysis:PROGRAMS:list",
+    "constants/sensitivity_analysis_constants.py:ValidParametersForSensitivityAnalysis:VIRTUAL_WORLD:list",
+    "parameters/parameters_holder.py:ParametersHolder:METHOD_SUB_PARAMETER_MAPPING:dict",
+    "parameters/parameters_holder.py:ParametersHolder:OUTPUTS_SUB_PARAMETER_MAPPING:dict",
+    "parameters/parameters_holder.py:ParametersHolder:PROGRAM_SUB_PARAMETER_MAPPING:dict",
+    "parameters/parameters_holder.py:ParametersHolder:VIRTUAL_WORLD_SUB_PARAMETER_MAPPING:dict",
+]
+
+
+def check_state_table(ctx):
+    """class- / module-level mutable containers, caches, copy / pickle hooks of the holder and variator
+    modules (LESSONS 1).  The table is fixed: the four class-level mappings of ParametersHolder and the
+    constant lists; no cache, no __deepcopy__/__reduce__ hook, no `global`.  Anything new re-opens the
+    obligation; the listed containers are snapshotted here and compared at the end of the run."""
+    ctx.obligations.append("table:holder-variator-cross-case-state")
+    try:
+        rows = T.mutable_state_table(V.C19_SOURCES)
+    except Exception as e:  # noqa: BLE001
+        ctx.broke("table:holder-variator-cross-case-state", f"cannot scan the sources: {e!r}")
+        return None, None
+    if rows != EXPECTED_STATE:
+        new = sorted(set(rows) - set(EXPECTED_STATE))
+        gone = sorted(set(EXPECTED_STATE) - set(rows))
+        ctx.broke("table:holder-variator-cross-case-state", f"new state carriers: {new}; no longer there: {gone}")
+    else:
+        ctx.discharged.append("table:holder-variator-cross-case-state")
+    try:
+        return rows, T.snapshot_state(rows)
+    except Exception as e:  # noqa: BLE001
+        ctx.broke("snapshot of class-level containers", repr(e))
+        return rows, None
 
 
 # ----------------------------------------------------------------------------------------------
@@ -111,7 +163,7 @@ def make_base(rng, defs, scratch, clash=False, want_files=False):
     r = T.real_intake_paths(paths)
     scratch.drop_last()
     if r[0] != "ok":
-        raise core.InfraError(f"C19: generated base rejected by the intake: {r}")
+        raise BaseRejected(f"generated base parameters rejected by the real intake: {r[1:]} files={json.dumps(files)[:600]}")
     full = r[1]
     base = {"programs": full.pop("programs"), "vw": full.pop("virtual_world"), "out": full.pop("outputs"), "sim": full}
     return (base, files) if want_files else base
@@ -205,6 +257,10 @@ def run_case(ctx, jobs, base, level, n, description, lists_by_target, via_file=N
         ctx.violate("C19:base-modified:dictionaries", "the base parameter dictionaries differ after producing the sets", inp)
     if not info["base_holder_unchanged"]:
         ctx.violate("C19:base-modified:holder", "the base parameters holder differs after producing the sets", inp)
+    want_sens = V.independent_sens(base)
+    if level == "methods" and info["sens"] != want_sens:
+        ctx.violate("C19:wiring:sensitivity-program",
+                    f"the program varied at the methods level is {info['sens']!r}; the first non-baseline program of the configuration is {want_sens!r}", inp)
     if info["shared_with_base"]:
         ctx.violate("C19:aliasing:set-shares-object-with-base",
                     "a produced set shares a mutable object (by identity) with the base holder: "
@@ -218,12 +274,21 @@ def run_case(ctx, jobs, base, level, n, description, lists_by_target, via_file=N
 def oracle_sets(ctx, base, level, n, lists_by_target, rv, info, inp, clash=None):
     """clash: None | "program" | "baseline" | "method" — which recorded name-clash finding a deviation of the
     name sets belongs to (only the dedicated clash stage passes one)"""
+    bsim = base["sim"]
+    baseline = bsim["baseline_program"]
+    # the recorded name-clash findings are recognised by their CAUSE, read from the configuration
+    # (not from the stage that generated the case): does a generated name <x>_<i> already exist?
+    sens_cfg = V.independent_sens(base)
+    existing_methods = set(base["programs"].get(sens_cfg, {}).get("methods", {})) if level == "methods" else set()
+    method_clash = {k for k in range(n) for mn in lists_by_target if f"{mn}_{k}" in existing_methods} if level == "methods" else set()
     if rv[0] != "ok":
+        if method_clash:
+            # F19c, crashing variant: the overwritten method is then asked for parameters it does not have
+            ctx.violate(SIG_METHCLASH, "methods level, a varied method takes the name of an existing method: " + rv[2][:150], inp)
+            return
         ctx.violate(f"C19:valid-rejected:{level}:{rv[1]}", "a well-formed sensitivity description is rejected: " + rv[2][:150], inp)
         return
     sets = rv[1]
-    bsim = base["sim"]
-    baseline = bsim["baseline_program"]
     want_sets = n if level == "virtual_world" else 1
     if len(sets) != want_sets:
         ctx.violate(f"C19:set-count:{level}", f"{len(sets)} parameter sets instead of {want_sets}", inp)
@@ -248,7 +313,7 @@ def oracle_sets(ctx, base, level, n, lists_by_target, rv, info, inp, clash=None)
             ctx.violate(f"C19:frame:virtual_world:{level}", "virtual world of the set differs from the base", inp)
         progs = s["programs"]
         if baseline not in progs or T.canon(progs[baseline]) != T.canon(base["programs"][baseline]):
-            f19b = (clash == "baseline" and level == "programs" and baseline in progs
+            f19b = (level == "programs" and baseline in progs
                     and any(f"{pn}_{k}" == baseline for pn in lists_by_target for k in range(n)))
             ctx.violate(SIG_BASECLASH if f19b else f"C19:baseline-changed:{level}",
                         "the baseline program is not carried over unchanged", inp)
@@ -262,7 +327,7 @@ def oracle_sets(ctx, base, level, n, lists_by_target, rv, info, inp, clash=None)
                 # recorded case F19b only: the BASELINE itself is called <program>_<i> and is overwritten by that copy
                 # (name set as expected, exactly one entry fewer).  A clash of a varied copy with a NON-baseline
                 # original program must lose nothing at this level (originals are removed first): a violation.
-                f19b = (clash == "baseline" and any(f"{pn}_{k}" == baseline for pn in lists_by_target for k in range(n))
+                f19b = (any(f"{pn}_{k}" == baseline for pn in lists_by_target for k in range(n))
                         and set(progs) == want and len(progs) == n_want - 1
                         and T.canon(progs[baseline]) != T.canon(base["programs"][baseline]))
                 ctx.violate(SIG_BASECLASH if f19b else "C19:names:programs",
@@ -285,9 +350,9 @@ def oracle_sets(ctx, base, level, n, lists_by_target, rv, info, inp, clash=None)
                 others = {p for p in base["programs"] if p != baseline}
                 lost = {f"{sens}_{k}" for k in range(n)} & others
                 sig = "C19:names:methods-level-programs"
-                if clash == "program" and lost and set(progs) == want - lost:
+                if lost and set(progs) == want - lost:
                     sig = SIG_CLASH
-                elif clash == "baseline" and baseline in {f"{sens}_{k}" for k in range(n)} and set(progs) == want \
+                elif baseline in {f"{sens}_{k}" for k in range(n)} and set(progs) == want \
                         and len(progs) == n and T.canon(progs[baseline]) == T.canon(base["programs"][baseline]):
                     sig = SIG_BASEM
                 ctx.violate(sig, f"programs of the set are {sorted(progs)} ({len(progs)}) instead of {sorted(want)} ({1 + n})", inp)
@@ -300,7 +365,7 @@ def oracle_sets(ctx, base, level, n, lists_by_target, rv, info, inp, clash=None)
                 base_labels = list(bp.get("method_labels", []))
                 if len(gotp["methods"]) != len(bp["methods"]) or (
                         len(set(map(str, base_labels))) == len(base_labels) and len(set(map(str, labels))) != len(labels)):
-                    ctx.violate(SIG_METHCLASH if clash == "method" else "C19:names:methods",
+                    ctx.violate(SIG_METHCLASH if k in method_clash else "C19:names:methods",
                                 f"program {sens}_{k}: {len(gotp['methods'])} methods {sorted(gotp['methods'])} with labels {labels} "
                                 f"instead of {len(bp['methods'])} methods with distinct labels (a method was overwritten)", inp)
                     continue
@@ -422,6 +487,86 @@ def comp_alter(ctx):
     ctx.traces += len(jobs)
 
 
+def safe_base(ctx, *a, **kw):
+    """make_base; a base the real intake refuses is a broken obligation (reported once), the search goes on"""
+    try:
+        return make_base(*a, **kw)
+    except BaseRejected as e:
+        if not any(b["obligation"] == "generated base accepted by the real intake" for b in ctx.broken):
+            ctx.broke("generated base accepted by the real intake", str(e))
+        ctx.count("base-rejected")
+        return None
+
+
+def history(ctx, jobs, base, rng):
+    """same-process history (LESSONS 1): ONE holder, built once, serves several analyses in a row whose
+    targets collide (same level, same programs / methods / keys) and whose listed values differ:
+    A, B, A.  Every call must give what the same call gives on a fresh holder (and what the
+    specification says), the holder, its input dictionaries and a twin holder built from the same
+    input objects must still be the base afterwards."""
+    level = rng.choice(["virtual_world", "programs", "methods"])
+    n = rng.choice([1, 2, 3])
+    desc_a, lbt_a = gen_case(rng, base, level, n)
+    # B: the same described paths with other values (colliding keys, different content)
+    desc_b, lbt_b = copy.deepcopy(desc_a), {}
+    for tgt, lists in lbt_a.items():
+        lbt_b[tgt] = {}
+        if level == "virtual_world":
+            tree, dnode = base["vw"], desc_b
+        elif level == "programs":
+            tree = base["programs"][tgt]
+            dnode = next(d for d in desc_b if d["Program Name"] == tgt)["Program Sensitivity Parameters"]
+        else:
+            tree = base["programs"][V.independent_sens(base)]["methods"][tgt]
+            dnode = next(d for d in desc_b if d["Method Name"] == tgt)["Method Sensitivity Parameters"]
+        for p in lists:
+            vals = [value_like(rng, G.get_path(tree, p)) for _ in range(n)]
+            G.set_path(dnode, p, vals)
+            lbt_b[tgt][p] = vals
+    ua, ub = V.real_unpack(level, n, desc_a), V.real_unpack(level, n, desc_b)
+    if ua[0] != "ok" or ub[0] != "ok":
+        return
+    outs, info = V.real_vary_history(base, [(level, n, ua[1]), (level, n, ub[1]), (level, n, ua[1])])
+    ctx.evaluations += 3
+    ctx.count("history:same-holder-A-B-A")
+    inp = {"base": base, "level": level, "n": n, "description": desc_a, "tag": "history", "description_b": desc_b}
+    alone_a, _ = V.real_vary(base, level, n, ua[1])
+    alone_b, _ = V.real_vary(base, level, n, ub[1])
+    for k, (got, alone, lbt, d) in enumerate([(outs[0], alone_a, lbt_a, desc_a), (outs[1], alone_b, lbt_b, desc_b),
+                                               (outs[2], alone_a, lbt_a, desc_a)]):
+        if T.show(got) != T.show(alone):
+            ctx.violate("C19:history:result-depends-on-earlier-analyses",
+                        f"call {k + 1} of A, B, A on one holder differs from the same call on a fresh holder", inp)
+        elif got[0] == "ok":
+            oracle_sets(ctx, base, level, n, lbt, got, {"sens": V.independent_sens(base)},
+                        {"base": base, "level": level, "n": n, "description": d, "tag": "history"})
+    for flag, what in (("inputs_unchanged", "the dictionaries the holder was built from"),
+                       ("holder_unchanged", "the holder"), ("twin_unchanged", "a second holder built from the same dictionaries")):
+        if not info[flag]:
+            ctx.violate(f"C19:history:{flag.replace('_unchanged', '')}-modified",
+                        f"after three analyses in a row {what} no longer render(s) the base parameters", inp)
+    ctx.nontrivial.add(("history", level, n, outs[0][0]))
+
+
+def edge_shapes(ctx, jobs, base, rng):
+    """configuration shapes (LESSONS 3): empty descriptions, zero sets, one value where the base has a list"""
+    for level, desc in (("virtual_world", {}), ("programs", [])):
+        n = rng.choice([1, 2])
+        lbt = {"vw": {}} if level == "virtual_world" else {}
+        res = run_case(ctx, jobs, base, level, n, desc, lbt, tag="empty-description")
+        if res is not None:
+            rv, info = res
+            oracle_sets(ctx, base, level, n, lbt, rv, info, {"base": base, "level": level, "n": n, "description": desc, "tag": "empty"})
+            ctx.nontrivial.add((level, "empty-description", rv[0]))
+    # correspondence only: nothing to vary at the methods level, zero sets at every level
+    run_case(ctx, jobs, base, "methods", 2, [], {}, tag="empty-description")
+    for level in ("virtual_world", "programs", "methods"):
+        desc, lbt = gen_case(rng, base, level, 1)
+        res = run_case(ctx, jobs, base, level, 0, desc, lbt, tag="zero-sets")
+        if res is not None:
+            ctx.nontrivial.add((level, "zero-sets", res[0][0] if res[0][0] == "ok" else res[0][1]))
+
+
 def run(ctx):
     ctx.rule = ("cases = base parameters built by the real intake from the repo's default files (baseline + 1-2 programs, "
                 "1-3 mobile/stationary methods, random user overrides) x sensitivity level (virtual_world, programs, methods) x "
@@ -430,9 +575,25 @@ def run(ctx):
                 "lists, unknown keys / names) for the correspondence only; random trees and mappings for alter_parameter and "
                 "the nested-update helpers. non-trivial = distinct (level, n, number and depths of described paths, targets, outcome)")
     core.lean_stage(ctx, MODULE, FILE, drivers=["drv_vary"])
-    check_constants(ctx)
-    defs = T.load_defaults()
-    comp_alter(ctx)
+    if IMPORT_ERROR is not None:
+        ctx.obligations.append("import of the holder / variator modules")
+        ctx.broke("import of the holder / variator modules", IMPORT_ERROR)
+        return
+    try:
+        check_constants(ctx)
+    except Exception as e:  # noqa: BLE001
+        ctx.broke("table:sensitivity-constants", f"cannot read the constants: {e!r}")
+    state_rows, state_before = check_state_table(ctx)
+    try:
+        defs = T.load_defaults()
+    except Exception as e:  # noqa: BLE001
+        ctx.broke("default parameter files", f"cannot load src/default_parameters: {e!r}")
+        return
+    try:
+        comp_alter(ctx)
+    except Exception:  # noqa: BLE001
+        import traceback
+        ctx.broke("stage alter_parameter crashed", traceback.format_exc())
     rng = ctx.rng
     scratch = T.Scratch()
     sens_dir = tempfile.mkdtemp(prefix="ldar_c19_")
@@ -440,11 +601,24 @@ def run(ctx):
     try:
         nb = ctx.pick(250, 1800)
         for b in range(nb):
-            base = make_base(rng, defs, scratch)
+            base = safe_base(ctx, rng, defs, scratch)
+            if base is None:
+                continue
             rt = V.real_roundtrip(base)
             ctx.evaluations += 1
             if rt[0] != "ok" or T.canon(rt[1]) != T.canon(base):
                 ctx.violate("C19:holder-roundtrip", "ParametersHolder(...).get_*() is not the dictionaries it was built from", {"base": base})
+            if b % 4 == 0:
+                rr = V.real_roundtrips(base)
+                ctx.evaluations += 1
+                if rr[0] != "ok" or not (rr[1]["deepcopy_equal"] and rr[1]["pickle_equal"] and rr[1]["baseline_kept"]) \
+                        or rr[1]["deepcopy_shared"] or rr[1]["pickle_shared"]:
+                    ctx.violate("C19:history:holder-copy-roundtrip",
+                                f"copy.deepcopy / pickle of the parameters holder is not an independent equal copy: {rr[1:]}", {"base": base})
+                ctx.count("holder-copy-roundtrips")
+                history(ctx, jobs, base, rng)
+            if b % 16 == 0:
+                edge_shapes(ctx, jobs, base, rng)
             for _ in range(ctx.pick(16, 40)):
                 level = rng.choice(["virtual_world", "programs", "methods"])
                 n = rng.choice([1, 2, 2, 3, 3, 4])
@@ -469,7 +643,9 @@ def run(ctx):
         # bases whose program / baseline / method names clash with the renaming scheme (recorded findings)
         for _ in range(ctx.pick(3, 20)):
             for kind in ("program", "baseline", "method"):
-                base = make_base(rng, defs, scratch, clash=kind)
+                base = safe_base(ctx, rng, defs, scratch, clash=kind)
+                if base is None:
+                    continue
                 for level in (("methods",) if kind == "method" else ("programs", "methods")):
                     n = rng.choice([2, 3])
                     desc, lbt = gen_case(rng, base, level, n)
@@ -501,7 +677,10 @@ def run(ctx):
                     ctx.nontrivial.add((level, "clash", kind, rv[0]))
         # one case per level through the route a sensitivity run really takes (SensitivitySimulationManager)
         for level in ("virtual_world", "programs", "methods"):
-            base, files = make_base(rng, defs, scratch, want_files=True)
+            bf = safe_base(ctx, rng, defs, scratch, want_files=True)
+            if bf is None:
+                continue
+            base, files = bf
             n = rng.choice([2, 3])
             desc, lbt = gen_case(rng, base, level, n)
             ru = V.real_unpack(level, n, desc)
@@ -513,6 +692,9 @@ def run(ctx):
             ctx.evaluations += 1
             ctx.count("route:SensitivitySimulationManager")
             inp = {"base": base, "level": level, "n": n, "description": desc, "tag": "manager"}
+            if rm[0] != "ok" and rm[1] in ("crash:ImportError", "crash:ModuleNotFoundError", "crash:SyntaxError"):
+                ctx.broke("route through SensitivitySimulationManager", rm[2])
+                continue
             if rm[0] != "ok":
                 ctx.violate(f"C19:wiring:manager:{rm[1]}", "SensitivitySimulationManager fails on a well-formed case: " + rm[2][:150], inp)
                 continue
@@ -540,6 +722,15 @@ def run(ctx):
                 ctx.disagree(op, {"op": op, "input": inp if op == "unpack" else {k: inp[k] for k in ("level", "n", "description")},
                                   "base": inp["base"] if op == "vary" else None}, mlc[:500], il[:500])
         ctx.traces += len(jobs)
+        if state_before is not None:
+            after = T.snapshot_state(state_rows)
+            changed = sorted(k for k in state_before if after.get(k) != state_before[k])
+            if changed:
+                ctx.violate("C19:history:class-level-container-modified",
+                            "class-/module-level containers of the holder / variator modules were modified by the run: " + ", ".join(changed),
+                            {"containers": changed, "before": {k: state_before[k][:300] for k in changed},
+                             "after": {k: after[k][:300] for k in changed}})
+            ctx.count("class-level-containers-compared", len(state_before))
         ctx.extra["hypothesis_hit_rate"] = {
             "vars.wf && varsOK on well-formed virtual_world cases (hypotheses of vw_frame / vw_varied / vw_described)":
                 hyp.get("virtual_world", [0, 0]),
@@ -558,6 +749,12 @@ def run(ctx):
 
 def replay(ctx, data):
     inp = data.get("input", {})
+    if IMPORT_ERROR is not None:
+        print("replay: the holder / variator modules cannot be imported:", IMPORT_ERROR[-400:])
+        return 1
+    if "containers" in inp:
+        print("replay: class-level containers modified during the run:", inp["containers"])
+        return 1
     if "base" not in inp or "level" not in inp:
         print("replay: broken obligation / correspondence:", data.get("broken_obligations"), data.get("correspondence_disagreements"))
         return 1
